@@ -8,6 +8,16 @@ open ExtInt
 
 abbrev Good (r : CRes) (v : CVal) : Prop := r = .ok v ∨ r = .staticAssert
 
+/-- a bound function is a constant or (infinite bound) the unbounded annotation -/
+theorem boundFn_const_or_unbounded (up : Bool) (a : AVal) :
+    (boundFn up a).modulus = .inf ∨ (boundFn up a).min = .negInf := by
+  unfold boundFn
+  generalize (if up = true then a.max else a.min) = v
+  dsimp only
+  by_cases h : v.isInf = true
+  · right; simp [h]
+  · left; simp [h]
+
 theorem withType_ok {oty : Option AType} {ty : AType} {k : AType → CRes} {v : CVal}
     (habs : oty = some ty) (hown : OwnOk ty) (hg : GammaT ty v)
     (hk : isConstType ty = false → Good (k ty) v) : Good (withType oty k) v := by
@@ -87,7 +97,12 @@ theorem no_overflow_aux (ρ : Env) : (e : Expr) → ∀ (t : ATree) (v : CVal),
     rename_i a _
     cases a <;> simp only [absBound, Option.some.injEq] at habs <;> try cases habs
     rw [← habs] at hnc
-    simp [isConstType, boundFn] at hnc
+    have hown := gate_own hg
+    rw [← habs] at hown
+    obtain ⟨lo, hi, h1, -, -⟩ := hown _ rfl
+    rcases boundFn_const_or_unbounded true ‹AVal› with h | h
+    · simp [isConstType, h] at hnc
+    · rw [h] at h1; cases h1
   | .lower e, t, v, hann, hg, henv, hev, hv => by
     have habs := annot_abs hann
     have hgam := (sound_aux ρ _ henv).1 _ _ habs hev
@@ -99,7 +114,12 @@ theorem no_overflow_aux (ρ : Env) : (e : Expr) → ∀ (t : ATree) (v : CVal),
     rename_i a _
     cases a <;> simp only [absBound, Option.some.injEq] at habs <;> try cases habs
     rw [← habs] at hnc
-    simp [isConstType, boundFn] at hnc
+    have hown := gate_own hg
+    rw [← habs] at hown
+    obtain ⟨lo, hi, h1, -, -⟩ := hown _ rfl
+    rcases boundFn_const_or_unbounded false ‹AVal› with h | h
+    · simp [isConstType, h] at hnc
+    · rw [h] at h1; cases h1
   | .cref e, t, v, hann, hg, henv, hev, hv => by
     have habs := annot_abs hann
     have hgam := (sound_aux ρ _ henv).1 _ _ habs hev
@@ -212,6 +232,16 @@ theorem no_overflow_aux (ρ : Env) : (e : Expr) → ∀ (t : ATree) (v : CVal),
       simp only [eval] at hev
       simp only [cppEval]
       exact no_overflow_aux ρ e t' v ht' hv2 henv hev hv1
+    · cases hv2
+  | .present a c, t, v, hann, hg, henv, hev, hv => by
+    simp only [vrefsGated, Bool.and_eq_true] at hv
+    obtain ⟨hv1, hv2⟩ := hv
+    split at hv2
+    · rename_i t' ht'
+      simp only [decide_eq_true_eq] at hv2
+      simp only [eval] at hev
+      simp only [cppEval]
+      exact no_overflow_aux ρ c t' v ht' hv2 henv hev hv1
     · cases hv2
 theorem no_overflow_list (ρ : Env) : (es : List Expr) → ∀ (ts : List ATree) (vs : List CVal),
     annotList es = some ts → (∀ t ∈ ts, gate t = some []) → EnvOkList ρ es →
